@@ -575,7 +575,8 @@ func (s *Scanner) Scan() SyntaxKind {
 					s.tokenFlags |= TF_HexSpecifier
 					// s.token = s.checkNumberSuffix()
 					// return s.token
-					return SK_NumberLiteral
+					s.token = SK_NumberLiteral
+					return s.token
 				}
 			}
 			// This fall-through is a deviation from the EcmaScript grammar. The grammar says that a leading zero
